@@ -282,9 +282,17 @@ def run(case, ctx):
                          for _ in range(length + 256))
             chip.wr(chip.heap - 64, junk, log=False)
             h0 = chip.heap
-        root_obj = mc.sdram_alloc_as_filelike(
-            max(length, 0) or 0, x=0, y=0, app_id=30,
-            **(dict(clear=True) if cleared else {})) if length else None
+        opts = dict(x=0, y=0, app_id=30, **(dict(clear=True) if cleared
+                                            else {}))
+        if length and case["seed"] % 2:
+            # the chip, the application and the clear switch reach the call
+            # through an enclosing block instead of as keywords
+            ctx.hit("allocation_options_through_context")
+            with mc(**opts):
+                root_obj = mc.sdram_alloc_as_filelike(length)
+        else:
+            root_obj = mc.sdram_alloc_as_filelike(
+                max(length, 0) or 0, **opts) if length else None
         if cleared:
             ctx.hit("cleared_allocation")
             a = root_obj.address
